@@ -148,10 +148,9 @@ def _rp(test, finding, tier="thorough"):
 
 PROPS["C02"]["replays"] = [_rp("f8_unfiltered_get_utxos_serves_the_heaviest_tip", "F8")]
 PROPS["C02"]["unverified_links"] = [
-    "state::blockchain_info: the tip fields are read from main_chain.tip() (by inspection); its utxos_length loop and the BlockchainInfo literal are not under contract",
     "get_utxos / get_balance / get_block_headers / fee percentiles obtain their chain from unstable_blocks::get_main_chain (verified: r == best_path); what they do with it is covered under C04, C05, C07, C15 only as far as those checks go",
 ]
-PROPS["C02"]["level_note"] += "; unfiltered get_utxos applies the whole served chain (lemma_unfiltered_walk_serves_the_tip + get_utxos_walk slice)"
+PROPS["C02"]["level_note"] += "; state::blockchain_info is verified as a whole (height/hash/timestamp/difficulty of the last block of the served branch); unfiltered get_utxos applies the whole served chain (lemma_unfiltered_walk_serves_the_tip + get_utxos_walk slice)"
 PROPS["C03"]["kani"] = ["canister_leaf", "stable_child"]
 PROPS["C03"]["replays"] = [_rp("f6_depth_rule_compares_with_the_deepest_other_child", "F6")]
 PROPS["C03"]["technique"] = "Verus contracts on the ingestion loop / depth functions + modular Kani check of get_stable_child (callees stubbed by their Verus-proved contracts)"
